@@ -141,6 +141,27 @@ def sysfaults(o, binary, rng, thorough):
                             {"op": "getall", "k": 4}, {"op": "close"}]
             jobs.append(("compact", which, pos, steps, m2))
 
+    # compaction that EXCLUDES the oldest table (it is bigger than the size limit): the keep-tombstones branch of the compactor
+    v3 = u.next()
+    big = [dbgen.open_step(0, 600, 1000, mem=1 << 30, bg=False, wbuf=32)]
+    m3 = ["none"] * 4
+    for k in range(4):
+        v = u.next()
+        big.append({"op": "put", "k": k, "v": v, "pad": 400})
+        m3[k] = v
+    m3[1], m3[2] = v3, "none"
+    for which in ("data", "index", "dataclose", "indexclose"):
+        for pos in ((0, 1) if not which.endswith("close") else (0,)):
+            steps = big + [{"op": "rotate"}, {"op": "barrier"}, {"op": "put", "k": 1, "v": v3, "pad": 10}, {"op": "rotate"}, {"op": "barrier"},
+                           {"op": "del", "k": 2}, {"op": "rotate"}, {"op": "barrier"},
+                           {"op": "failwrites", "match": "sstable_compaction", "which": which, "pos": pos}, {"op": "compact"},
+                           {"op": "getall", "k": 4}, {"op": "close"}]
+            jobs.append(("compact", "partial-" + which, pos, steps, m3))
+    # the flush of the replayed log inside Open: image of a kill with acknowledged writes in the log, ENOSPC while recovery writes the table
+    for fname in ("data.rio", "index.rio", "meta.pb.bin"):
+        for when in ((1, 2, 3) if thorough else (1, 2)):
+            jobs.append(("recflush", fname, when, base + [{"op": "snapshot", "v": "img"}, {"op": "close"}], list(model)))
+
     def do(job):
         target, fname, when, steps, mdl = job
         work = common.scratch("C11-sys-%s-%s-%d" % (target, fname, when))
@@ -168,6 +189,32 @@ def sysfaults(o, binary, rng, thorough):
                 os.remove(slog)
             except OSError:
                 pass
+        elif target == "recflush":
+            rc, out, err, to = common.run_proc([binary, "db", os.path.join(work, "in.json"), trace], 40, env=env)
+            img = os.path.join(ddir, "case0-img")
+            rin = os.path.join(work, "rin.json")
+            with open(rin, "w") as f:
+                json.dump({"keys": [k.hex() for k in dbrun.key_bytes()], "n": 4, "dirs": [img]}, f)
+            path = os.path.join(img, "sstable_000000000000001", fname)
+            sc = ["strace", "-f", "-o", slog, "-e", "trace=write", "-P", path, "-e", "inject=write:error=ENOSPC:when=%d" % when, binary, "dbread", rin]
+            rc2, out2, err2, to = common.run_proc(sc, 60, env=env)
+            try:
+                hit = "INJECTED" in open(slog, errors="replace").read()
+                os.remove(slog)
+            except OSError:
+                pass
+            first = {}
+            for ln in (out2 or b"").decode("utf-8", "replace").splitlines():
+                try:
+                    first = json.loads(ln)
+                except ValueError:
+                    pass
+            reported_open = (not first.get("ok", False)) or rc2 != 0
+            r = crash.recover_images(binary, [img], [k.hex() for k in dbrun.key_bytes()], 4)[img]
+            import shutil
+            shutil.rmtree(ddir, ignore_errors=True)
+            return {"case": "%s/%s/%s" % (target, fname, when), "target": target, "hit": bool(hit), "hang": bool(to), "reported": bool(reported_open),
+                    "installed": False, "records": True, "reopenOk": bool(r.get("ok")), "m": list(r.get("m") or []), "model": mdl, "err": (r.get("err") or "")[:200]}
         else:
             rc, out, err, to = common.run_proc([binary, "db", os.path.join(work, "in.json"), trace], 40, env=env)
         evs = common.read_ndjson(trace) if os.path.exists(trace) else []
